@@ -84,6 +84,18 @@ def sites(prog):
                 n["x"] = p["funs"][0].get("oname", p["funs"][0]["name"])
                 n["v"] = lit("si", 3)
             yield ("assignment-to-constant", "assignment turned into %s := 3" % prog["funs"][0]["name"], f)
+    for di, dm in enumerate(prog.get("doms", [])):
+        for k, o in enumerate(dm["ops"]):
+            def f(p, di=di, k=k):
+                del p["doms"][di]["ops"][k]
+            yield ("missing-export", "domain %s without its definition of %s" % (dm["name"], o["name"]), f)
+    for path, node in list(_paths(prog)):
+        if isinstance(node, dict) and node.get("e") == "dcall" and node["dom"].get("d") == "param" and len(prog.get("cats", [])) > 1:
+            other = [o for o in prog["cats"][1]["ops"]]
+            if other:
+                def f(p, path=path, name=other[0]["name"]):
+                    _get(p, path)["op"] = name
+                yield ("operation-not-in-parameter-category", "%s$T replaced by %s$T" % (node["op"], other[0]["name"]), f)
     for fi, fn in enumerate(prog["funs"]):
         rt = fn["rt"]
         if isinstance(rt, str) and rt in WRONG:
